@@ -229,7 +229,8 @@ def r4(p, rep):
     }
     for q, allowed in expect.items():
         f = p.func(q, "frontend.backend")
-        kinds = [(common.raised_class(p, f.module, r, f.node), r) for r in walk_no_nested(f.node) if isinstance(r, ast.Raise)]
+        # raises of the function itself and of the helpers it calls (a `_raise_...()` helper is the same raise)
+        kinds = [(common.raised_class(p, g.module, r, g.node), r) for g in common.with_helpers(p, f) for r in walk_no_nested(g.node) if isinstance(r, ast.Raise)]
         if not kinds:
             rep.violation("C11.R4", f"{f.qualname}:raises", f.loc, "no raise left: failures fall through")
         for k, r in kinds:
@@ -245,7 +246,15 @@ def r4(p, rep):
     bounds = [common.len_bounds(cfg.guards(cfg.node_for(r)), v) for r in res]
     rets = [r for r in walk_no_nested(f.node) if isinstance(r, ast.Return) and r.value is not None and norm(r.value) == f"{v}[0]"]
     rb = [common.len_bounds(cfg.guards(cfg.node_for(r)), v) for r in rets]
-    ok = any(hi == 0 for lo, hi in bounds) and any(lo >= 2 for lo, hi in bounds) and bool(rb) and all(b == (1, 1) for b in rb)
+    def _not_one(r):
+        for t, pol in cfg.guards(cfg.node_for(r)):
+            if isinstance(t, ast.Compare) and len(t.ops) == 1 and norm(t.left) == f"len({v})" and isinstance(t.comparators[0], ast.Constant) and t.comparators[0].value == 1:
+                if (isinstance(t.ops[0], ast.Eq) and not pol) or (isinstance(t.ops[0], ast.NotEq) and pol):
+                    return True
+        return False
+
+    covers = (any(hi == 0 for lo, hi in bounds) and any(lo >= 2 for lo, hi in bounds)) or any(_not_one(r) for r in res)
+    ok = covers and bool(rb) and all(b == (1, 1) for b in rb)
     rep.add("C11.R4", f"{f.qualname}:zero-or-many", f.loc, ok, f"no candidate and several candidates raise BackendResolutionError; `{v}[0]` is returned only when len({v}) == 1" if ok else f"candidate-count handling: raises under len bounds {bounds}, returns {v}[0] under {rb}")
 
 
@@ -286,7 +295,8 @@ def r5(p, rep):
             and norm(t.args[0].generators[0].iter) == f.params[1]
         )
 
-    sc = [n for n in walk_no_nested(f.node) if isinstance(n, ast.If) and _all_isinstance(n.test)]
+    cfg5 = CFG(f.node)
+    sc = [n for n in walk_no_nested(f.node) if isinstance(n, ast.If) and cfg5.node_for(n) is not None and _all_isinstance(cfg5.expand(n.test, cfg5.node_for(n)))]
     ok = bool(sc) and any('_get_by_name("numpy")' in norm(s).replace("'", '"') for s in sc[0].body)
     rep.add("C11.R5", f"{f.qualname}:scalars-select-numpy", f.loc, ok, "Python/numpy scalars alone select the numpy backend by name")
 
